@@ -61,7 +61,7 @@ def check(run):
         cases.append(mk_case(p, "fault:" + f))
     for _ in range(20):
         cases.append(mk_case(c10.gen_case(rng), "macros"))
-        prog, use, em = c11.gen_case(rng)
+        prog, use, em, _ = c11.gen_case(rng, rng.random() < 0.25)
         cases.append(mk_case(prog, "emacros"))
     # the operand-range, auto-sizing and layout families: every boundary where a width, a sign or a label
     # value decides between an error and bytes (label-dependent operands reach the layout and emit phases,
